@@ -141,8 +141,8 @@ PROPS = {
         "assumptions": COMMON_ASSUME + ["threads are interleaved at visible operations only (sync/atomic, Mutex, Cond, channel, WaitGroup, time.Sleep, go); code between two visible operations of a thread is assumed not to race with other threads", "package context's own synchronisation is trusted: its operations are atomic steps", "sync.Pool (bufPool) is a LIFO free list; time.Sleep = 'time passes when nothing else can run'", "schedule counterexamples are reported from the engine's exploration (kinds assert/deadlock are engine-only for these properties: the native replay cannot force a schedule without instrumenting the diode sources)", "fewer than 2^64 ring positions are claimed in the life of a diode"],
     },
     "C12": {
-        "groups": [{"name": "diode", "tags": "verif", "run": "^VH_C10_((waiter|poller)_(1x1|1x2|1x3|2x1)_s[12]_(fresh|steady)_quiesce|(waiter|poller)_(1x1|1x2|2x1)_s[12]_fresh_close)$", "flags": {"harness-timeout": 200, "max-paths": 150000, "witnesses": 1},
-                    "quick": {"preempt": 2, "run": "^VH_C10_(((poller_(1x1|1x2|1x3|2x1)_s[12]_fresh)|(poller_(1x1|1x2)_s[12]_steady)|(waiter_(1x1|1x2|2x1)_s[12]_fresh))_quiesce|(waiter|poller)_(1x1|1x2)_s1_fresh_close)$"}, "thorough": {"preempt": 3, "harness-timeout": 3000, "max-paths": 5000000}}],
+        "groups": [{"name": "diode", "tags": "verif", "run": "^VH_C10_((waiter|poller)_(1x1|1x2|1x3|2x1)_s[12]_(fresh|steady)_quiesce|(waiter|poller)_(1x1|1x2|2x1)_s[12]_fresh_close|reenter_(waiter|poller))$", "flags": {"harness-timeout": 200, "max-paths": 150000, "witnesses": 1},
+                    "quick": {"preempt": 2, "run": "^VH_C10_(((poller_(1x1|1x2|1x3|2x1)_s[12]_fresh)|(poller_(1x1|1x2)_s[12]_steady)|(waiter_(1x1|1x2|2x1)_s[12]_fresh))_quiesce|(waiter|poller)_(1x1|1x2)_s1_fresh_close|reenter_(waiter|poller))$"}, "thorough": {"preempt": 3, "harness-timeout": 3000, "max-paths": 5000000}}],
         "level": "model_checking", "msg_filter": "^C12|^deadlock", "engine_only_kinds": ["assert", "deadlock", "panic"], "witness_replays": {"quick": 1, "thorough": 1},
         "bounds": {"quick": "quiesce phase: after all Writes returned, with NO later Write or Close, the system runs until no thread can move (the scheduler knows); every message must have been delivered or reported; Close must return in the Close phase (a global deadlock is a violation); configurations as C11",
                    "thorough": "adds 2x2, size 3, preemption bound 3"},
